@@ -56,6 +56,24 @@ Inductive ev :=
 Definition visible (e : ev) : bool :=
   match e with ETau | EBlock | EDone => false | _ => true end.
 
+(* ---- what the model implements, in the vocabulary of the regenerated source facts (Gen/GenLocks.v);
+        Props/C15.v proves `src_* = model_*`, so an edit of the locking in core.py breaks a named theorem ---- *)
+Inductive lockname := LockP | LockR.            (* packrat_cache_lock, recursion_lock *)
+Inductive rop := RAcq (l : lockname) | RRel (l : lockname) | RClearCache | RStats | RClearMemo.
+Inductive keyfield := KSelf | KInstring | KLoc | KCallPre | KDoActions.
+
+(* reset_cache = RstClear / RstClearM / RstRel resp. LRstClear / LRstClearM / LRstRel below (the stats reset is not an event) *)
+Definition model_reset_ops : list rop := [RAcq LockP; RClearCache; RStats; RClearMemo; RRel LockP].
+(* the packrat key: the model's cache key is the whole argument `A` of `_parse` = (element, input, loc, callPreParse, do_actions) *)
+Definition model_packrat_key : list keyfield := [KSelf; KInstring; KLoc; KCallPre; KDoActions].
+(* the recursion-memo key of Part 2 / ThreadsMini.mkey: (loc, Forward, do_actions) — the input string is NOT part of it *)
+Definition model_memo_key : list keyfield := [KLoc; KSelf; KDoActions].
+Definition rop_ev (r : rop) : option ev :=
+  match r with
+  | RAcq LockP => Some EAcq | RRel LockP => Some ERel | RAcq LockR => Some EAcqR | RRel LockR => Some ERelR
+  | RClearCache => Some EClear | RClearMemo => Some EMClear | RStats => None
+  end.
+
 Section Packrat.
   Variables A O : Type.
   Variable step : A -> prog A O.
